@@ -607,6 +607,8 @@ pub struct Wrapped {
     shared: Arc<Shared>,
     /// fail on this call number (1-based), if any
     fail_on: Option<u64>,
+    /// (first call, count): these calls answer Pending without touching the inner block
+    pending: Option<(u64, u64)>,
     name: String,
 }
 impl rustradio::block::BlockName for Wrapped {
@@ -633,6 +635,11 @@ impl Block for Wrapped {
             self.shared.failed_blocks[self.idx].store(true, Ordering::SeqCst);
             return Err(rustradio::Error::msg(format!("injected#{}", self.idx)));
         }
+        if let Some((first, count)) = self.pending {
+            if n >= first && n < first + count {
+                return Ok(BlockRet::Pending);
+            }
+        }
         self.inner.work()
     }
 }
@@ -649,6 +656,19 @@ pub fn wrap(blocks: Vec<Box<dyn Block + Send>>, names: &[String], shared: &Arc<S
 
 /// Like `wrap`, with any number of failing blocks (block index, failing call number).
 pub fn wrap_multi(blocks: Vec<Box<dyn Block + Send>>, names: &[String], shared: &Arc<Shared>, fails: &[(usize, u64)]) -> Vec<Box<dyn Block + Send>> {
+    wrap_pending(blocks, names, shared, fails, None)
+}
+
+/// Like `wrap_multi`; block `pending.0` additionally answers `Pending` on its calls
+/// `pending.1 .. pending.1 + pending.2` (1-based) - a block waiting for something outside
+/// the graph.
+pub fn wrap_pending(
+    blocks: Vec<Box<dyn Block + Send>>,
+    names: &[String],
+    shared: &Arc<Shared>,
+    fails: &[(usize, u64)],
+    pending: Option<(usize, u64, u64)>,
+) -> Vec<Box<dyn Block + Send>> {
     blocks
         .into_iter()
         .enumerate()
@@ -658,6 +678,7 @@ pub fn wrap_multi(blocks: Vec<Box<dyn Block + Send>>, names: &[String], shared: 
                 idx: i,
                 shared: shared.clone(),
                 fail_on: fails.iter().find(|(p, _)| *p == i).map(|(_, k)| *k),
+                pending: pending.filter(|(p, _, _)| *p == i).map(|(_, a, c)| (a, c)),
                 name: names[i].clone(),
             }) as Box<dyn Block + Send>
         })
